@@ -808,6 +808,15 @@ func DerivedFrom(v ssa.Value, src func(ssa.Value) bool, through func(*ssa.Call) 
 				if st, ok := r.(*ssa.Store); ok && st.Addr == x && rec(st.Val) {
 					return true
 				}
+				// a local struct or array built field by field
+				switch fa := r.(type) {
+				case *ssa.FieldAddr, *ssa.IndexAddr:
+					for _, rr := range Referrers(fa.(ssa.Value)) {
+						if st, ok := rr.(*ssa.Store); ok && st.Addr == fa.(ssa.Value) && rec(st.Val) {
+							return true
+						}
+					}
+				}
 			}
 		case *ssa.Call:
 			if b, ok := x.Call.Value.(*ssa.Builtin); ok && (b.Name() == "append" || b.Name() == "min" || b.Name() == "max" || b.Name() == "len" || b.Name() == "cap") {
